@@ -544,7 +544,29 @@ func schemaOrderDriver(raw json.RawMessage) *Out {
 		}()
 	}
 	if c.Valid && len(refErr) > 0 {
+		// the sorted listing does not compile: is that a property of the sources, or of the listing?
+		allPkgs := append([]string{}, pkgs...)
+		sort.Sort(sort.Reverse(sort.StringSlice(allPkgs)))
 		for p, e := range refErr {
+			src := newMemFiles(sources)
+			src.pkgOrder = allPkgs
+			var err2 error
+			func() {
+				defer func() {
+					if r := recover(); r != nil {
+						err2 = fmt.Errorf("panic: %v", r)
+					}
+				}()
+				var ps *protobuild.PackageSet
+				if ps, err2 = protobuild.NewPackageSet(noDeps{}, src); err2 == nil {
+					_, err2 = ps.CompilePackage(context.Background(), p)
+				}
+			}()
+			if err2 == nil {
+				out.Nontrivial = true
+				out.V("C14|error-differs|"+where, "CompilePackage(%s) fails when the packages are listed in sorted order (%s) and succeeds when they are listed in reverse order", p, e)
+				return out
+			}
 			return rejected(out, c.Bundle, fmt.Errorf("%s: %s", p, e), sources)
 		}
 	}
